@@ -42,7 +42,7 @@ InvStrict == st = "mut" => StrictOn(Ty, m.in)
 \* classes that can never be valid
 InvRejected == (st = "mut" /\ ~HasRest(Ty) /\ m.cls \in {"trunc_at", "trunc_in", "disc", "nonmin", "map_swap", "map_dup", "map_dup2", "frame_tag"})
                => ~Dec(Ty, m.in).ok
-InvPadBits == (st = "mut" /\ m.cls = "pad_bits" /\ C % 8 # 0) => ~Dec(Ty, m.in).ok
+InvPadBits == (st = "mut" /\ m.cls = "pad_bits") => ~Dec(Ty, m.in).ok
 \* the unmutated encoding and the encoding followed by a stray byte decode to v on exactly the encoded bytes
 InvValid == (st = "mut" /\ m.cls \in {"valid", "trail"} /\ ~HasRest(Ty))
             => LET d == Dec(Ty, m.in) IN d.ok /\ d.v = v /\ d.used = Len(EncC(Ty, v))
